@@ -5,7 +5,8 @@ E1, bounded-exhaustive, on the real DefaultArgsParser (fresh parser per parse):
  (a) token soup: ALL token sequences up to a length over an adversarial alphabet x ~20 small formats, strict + lenient;
  (b) single faults: every spelling of every assignment of a core family of C01 formats (props/_parsegen.py), mutated by
      exactly one fault whose documented error class is known: drop a required argument, add a surplus positional,
-     add an unknown option (long, short, `=value`, unknown letter in a short group), give a flag a value, strip a
+     add an unknown option (`--zz` / `-z` at every boundary, `--zz=1` at the first and last one, an unknown letter in
+     front of / behind a short group), give a flag a value, strip a
      required option value, give a non-convertible text to a typed option/argument.  Faults are inserted at group
      boundaries only (never between an option and its separate value, never right behind a bare optional-value
      option), so the line carries ONE fault and the predicted class is exact.
@@ -104,7 +105,7 @@ def judge(fmt, spec, tokens, predicted=None, fault=None):
     s_doc = "return" if s_exc is None else _documented(s_exc)
     l_doc = "return" if l_exc is None else _documented(l_exc)
     if s_doc is None:
-        sig = "crash:strict:" + report.exc_site(s_exc)
+        sig = "crash:" + report.exc_site(s_exc)
         vs.append(report.viol(sig, "strict parse let an undocumented exception escape: %s: %s" % (s_cls, s_exc),
                               dict(case, sig=sig), "return | CannotParseArgsException | NoSuchOptionException | ValueError",
                               "%s: %s" % (s_cls, s_exc)))
@@ -112,8 +113,9 @@ def judge(fmt, spec, tokens, predicted=None, fault=None):
         sig = "fault:%s:expected-%s:got-%s" % (fault, predicted, s_doc)
         vs.append(report.viol(sig, "single fault '%s' must be rejected with %s, strict parse gave %s" % (fault, predicted, s_doc),
                               dict(case, sig=sig), predicted, s_doc if s_exc is None else "%s: %s" % (s_cls, s_exc)))
-    if l_doc is None:
-        sig = "crash:lenient:" + report.exc_site(l_exc)
+    if l_doc is None and not (s_doc is None and report.exc_site(l_exc) == report.exc_site(s_exc)):
+        # (the same escape in both modes is one failure: one signature)
+        sig = "crash:" + report.exc_site(l_exc)
         vs.append(report.viol(sig, "lenient parse let an undocumented exception escape: %s: %s" % (l_cls, l_exc),
                               dict(case, sig=sig), "return | ValueError", "%s: %s" % (l_cls, l_exc)))
     elif l_doc in ("CannotParseArgsException", "NoSuchOptionException"):
@@ -171,6 +173,13 @@ CPA, NSO, VE = "CannotParseArgsException", "NoSuchOptionException", "ValueError"
 
 def fault_formats(tier):
     q = tier != "thorough"
+    if tier == "smoke":  # development aid only (not a claimed bound): a handful of formats
+        R = G.arg_kind("req")
+        p = dict(dom_n=1, arg_dom_n=1, multi_len=1, arg_multi_len=1)
+        return [(G.mk_spec(G.NAMES0, [G.opt_kind("flag"), G.opt_kind(m, t)], [R]), p)
+                for m, t in (("req", "int"), ("opt", "string"), ("multi", "string"), ("flag", "string"))] + \
+               [(G.mk_spec(G.NAMES1, [G.opt_kind("req")], [R, G.arg_kind("opt", "int", False, "typed")]), p),
+                (G.mk_spec(G.NAMES0, [], [R, G.arg_kind("multi", "int")]), p)]
     R, O, M, RM = G.arg_kind("req"), G.arg_kind("opt", default="typed"), G.arg_kind("multi"), G.arg_kind("reqmulti")
     SH = [G.opt_kind("flag"), G.opt_kind("req"), G.opt_kind("opt"), G.opt_kind("multi")]
     NS = [G.opt_kind("flag", short=False), G.opt_kind("req", short=False), G.opt_kind("multi", "int", short=False)]
@@ -186,8 +195,11 @@ def fault_formats(tier):
         tvs = [["string"] * n] + [["string"] * i + [ty] + ["string"] * (n - i - 1) for i in range(n) for ty in ("int", "float", "bool")]
         for tv in tvs:
             aks = [G.arg_kind(m, ty, ty == "float", "typed" if m in ("opt", "multi") else None) for m, ty in zip(shape, tv)]
-            for nm in (G.NAMES0, G.NAMES2):
-                out.append((G.mk_spec(nm, [G.opt_kind("flag"), G.opt_kind("req", "int")], aks),
+            plain = all(t == "string" for t in tv)
+            for nm in (G.NAMES0, G.NAMES1, G.NAMES2):
+                if nm is G.NAMES2 and not plain and q:
+                    continue
+                out.append((G.mk_spec(nm, [G.opt_kind("req", "int")] if nm is not G.NAMES2 else [], aks),
                             dict(dom_n=1, arg_dom_n=1, multi_len=1, arg_multi_len=1 if q else 2)))
     return out
 
@@ -219,7 +231,7 @@ def faults(spec, asg, toks, roles):
     # 3 unknown option (only in front of `--`)
     for i in range(dd + 1):
         if boundary(i):
-            for u in ("--zz", "-z", "--zz=1"):
+            for u in ("--zz", "-z") + (("--zz=1",) if i in (0, dd) else ()):
                 yield "unknown-option", toks[:i] + [u] + toks[i:], NSO
     for i, r in enumerate(roles):
         if r[0] in ("G", "GB", "GA", "GS"):
@@ -253,8 +265,12 @@ def faults(spec, asg, toks, roles):
             else:
                 t = "abc"
             yield "unconvertible-option-value", toks[:i] + [t] + toks[i + 1:], VE
+            if not opts[k][4]:  # not nullable: the text null does not convert either
+                yield "unconvertible-option-value", toks[:i] + [t[:-3] + "null"] + toks[i + 1:], VE
         if r[0] in ("A", "T") and args[k][2] != "string":
             yield "unconvertible-argument-value", toks[:i] + ["abc"] + toks[i + 1:], VE
+            if not args[k][3]:
+                yield "unconvertible-argument-value", toks[:i] + ["null"] + toks[i + 1:], VE
 
 
 def run_faults(item):
@@ -318,6 +334,8 @@ def main():
     extra = SEED_TOKENS[rep.seed % len(SEED_TOKENS)]
     big = ALPHA24 + [extra]
     len_big, len_small = (3, 5) if q else (4, 6)
+    if rep.tier == "smoke":
+        len_big, len_small = 2, 3
     items = []
     fmts = soup_formats()
     for fi, spec in enumerate(fmts):
